@@ -565,11 +565,98 @@ def r15(ctx, prog):
                             ok = True
                 if not ok:
                     bad.append(r)
+            # exactness with the scanner's contract (0 = incomplete, > 0 = end position): "need more" exactly on 0, the text is taken only on > 0
+            from tbxlint import bounds
+            from tbxlint.affine import Aff
+            hsym = Aff.sym('cur:' + holder)
+            if not bad:
+                for r in q.returns(dec):
+                    if q.return_const(dec, r) != 0 or not dec.cfg.exists_path(cp, q.pt_or_term(dec, r)):
+                        continue
+                    facts = bounds.facts_at(dec, q.pt_or_term(dec, r))
+                    exact = bounds.decide(Aff(0) - hsym, facts, set())
+                    ctx.ob('C14.R15', '%s::onRecvData|need-more-exact@%s' % (P, dec.loc(r['i']).split(':')[-1]), exact, '"need more data" only when the scanner found no end (result <= 0, < 0 excluded above)' if exact else
+                           '"need more data" is also answered when %s() found the end of a text (result > 0 is possible here): a complete message is held back' % c.get('fn'), where=dec.loc(r['i']))
+                for u in dec.calls():
+                    if u.get('fn') == 'CatchThrow' and dec.cfg.exists_path(cp, q.pt(dec, u)):
+                        facts = bounds.facts_at(dec, q.pt(dec, u))
+                        pos_ok = bounds.decide(hsym - Aff(1), facts, set())
+                        ctx.ob('C14.R15', '%s::onRecvData|parse-on-positive' % P, pos_ok, 'the text is parsed only when the scanner result is > 0' if pos_ok else
+                               'the text is parsed although %s() may have answered 0 ("no end yet"): an incomplete message is parsed as an empty text and refused — the same stream '
+                               'decodes or fails depending on where the segments are cut' % c.get('fn'), where=dec.loc(u['i']))
             ctx.ob('C14.R15', '%s::onRecvData|%s' % (P, c.get('fn')), not bad, 'the scanner\'s error value never reaches `return 0`' if not bad else
                    '%s() returns %s for input that can never become a message (unbalanced brackets), and onRecvData answers 0 — "need more data" — at %s without excluding it: '
                    'the malformed bytes are never reported, the caller keeps them and waits for ever' % (c.get('fn'), sorted(sent), dec.loc(bad[0]['i'])), where=dec.loc(c['i']))
     if n < 1:
         raise AnalysisBroken('no scanner with a negative error value found in the decoders (FindEndPos body not in the program?)')
+
+
+def cfg_before(f, a, b):
+    """point a is not reachable from b (it lies before the extraction)"""
+    return a is not None and b is not None and not f.cfg.exists_path(b, a)
+
+
+def r16(ctx, prog):
+    ctx.rule('C14.R16', 'A4 resumable header: the fixed-size header is taken from the buffer only when the guards that hold there give data_size >= H, H being the '
+             'number of bytes the extraction consumes (sum of the widths of the extracted fields); with fewer bytes the framing answers 0 before touching them — '
+             'otherwise a header split across segments is decoded from missing bytes', floor=1)
+    from tbxlint import bounds
+    from tbxlint.affine import Aff
+    f = prog.fn1(NS + 'HeaderStreamProto::onRecvData')
+    wl = wire_locals(f)
+    if not wl:
+        raise AnalysisBroken('HeaderStreamProto::onRecvData: no wire-extracted locals found')
+    H = 0
+    for dd, x in wl.items():
+        w_ = WIDTH.get((x.get('ct') or x.get('t') or '').replace('uint16_t', 'unsigned short').replace('uint32_t', 'unsigned int'), 0)
+        if not w_:
+            raise AnalysisBroken('width of extracted field %s unknown' % x.get('n'))
+        H += w_
+    ext = [st for st in f.calls() if st.get('op') == '>>' and st.get('args') and 'Deserializer' in (f.s(st['args'][0]).get('ct') or f.s(st['args'][0]).get('t') or '')]
+    if not ext:
+        raise AnalysisBroken('HeaderStreamProto::onRecvData: header extraction not found')
+    dsz = [p_ for p_ in f.params if 'size' in p_['n']]
+    if not dsz:
+        raise AnalysisBroken('HeaderStreamProto::onRecvData: size parameter not found')
+    first = min(ext, key=lambda st: (st.get('l', 0), st.get('c', 0)))
+    p = q.pt(f, first)
+    facts = bounds.facts_at(f, p)
+    ok = bounds.decide(Aff.sym(dsz[0]['n']) - Aff(H), facts, bounds.unsigned_syms(f))
+    ctx.ob('C14.R16', '%s|header-complete' % f.name, ok, 'the %d header bytes are extracted under %s >= %d' % (H, dsz[0]['n'], H) if ok else
+           'the extraction consumes %d header bytes but the guards in force only give %s: a header arriving in two segments is decoded from bytes that are not there (zero '
+           'length field), and the framing returns a consumed count for an incomplete message' % (H, '; '.join('%r >= 0' % g for g in facts[:4]) or 'nothing about ' + dsz[0]['n']),
+           where=f.loc(first['i']))
+    # exactness of the completeness test: "need more data" is answered only when the frame is strictly incomplete (length + H > data_size) ...
+    pos = bounds.unsigned_syms(f)
+    wnames = {x.get('n') for x in wl.values()}
+    for r in q.returns(f):
+        if q.return_const(f, r) != 0:
+            continue
+        rp = q.pt_or_term(f, r)
+        conds = [c for c, k, b in f.cfg.controlling_branches(rp) if any(f.stmts[x]['k'] == 'DeclRefExpr' and f.stmts[x].get('n') in wnames for x in f.walk(c))]
+        if not conds:
+            # the header-size test: need-more only when strictly fewer than H bytes are there
+            if cfg_before(f, rp, q.pt(f, first)):
+                facts = bounds.facts_at(f, rp)
+                st_ = bounds.decide(Aff(H) - Aff.sym(dsz[0]['n']) - Aff(1), facts, pos)
+                ctx.ob('C14.R16', '%s|need-more-exact@%s' % (f.name, f.loc(r['i']).split(':')[-1]), st_, '"need more data" only when %s < %d' % (dsz[0]['n'], H) if st_ else
+                       '"need more data" is also answered when exactly the %d header bytes are there: a frame with an empty payload is never examined (and never refused)' % H,
+                       where=f.loc(r['i']))
+            continue
+        facts = bounds.facts_at(f, rp)
+        strict = any(bounds.decide(Aff.sym('cur:' + w) + Aff(H) - Aff.sym(dsz[0]['n']) - Aff(1), facts, pos) for w in wnames)
+        ctx.ob('C14.R16', '%s|need-more-exact@%s' % (f.name, f.loc(r['i']).split(':')[-1]), strict,
+               '"need more data" only when length + %d > %s' % (H, dsz[0]['n']) if strict else
+               '"need more data" is also answered when length + %d == %s, i.e. for a frame that is complete: the last message of a stream is held back until unrelated bytes '
+               'arrive — the decoded sequence depends on the segmentation' % (H, dsz[0]['n']), where=f.loc(r['i']))
+    # ... and the payload is taken only when it is completely there
+    for c in f.calls():
+        if c.get('fn') == 'fetchNoCopy' and c.get('args'):
+            n_ = bounds.form(f, c['args'][0], q.pt(f, c))
+            facts = bounds.facts_at(f, q.pt(f, c))
+            ok2 = n_ is not None and bounds.decide(Aff.sym(dsz[0]['n']) - Aff(H) - n_, facts, pos)
+            ctx.ob('C14.R16', '%s|payload-complete' % f.name, ok2, 'the payload is fetched under length + %d <= %s' % (H, dsz[0]['n']) if ok2 else
+                   'the payload of %s bytes is fetched without the guards giving length + %d <= %s' % (n_, H, dsz[0]['n']), where=f.loc(c['i']))
 
 
 def run(ctx):
@@ -586,6 +673,7 @@ def run(ctx):
     ctx.guard(r13, ctx, prog)
     ctx.guard(r14, ctx, prog)
     ctx.guard(r15, ctx, prog)
+    ctx.guard(r16, ctx, prog)
     ctx.guard(harden.run_json_narrowing, ctx, prog, 'C14.R11', [prog.fn1(NS + 'Proto::onRecvJson')] + [prog.fn1(RPC + '::' + n) for n in ('onRecvRequest', 'onRecvRespond')],
               lambda g: g.file.startswith(MODULES + '/jsonrpc/') or g.file.startswith(MODULES + '/util/'), 'JSON-RPC receive path')
     ctx.guard(harden.run, ctx, prog, 'C14.R10', [prog.fn1(NS + p + '::onRecvData') for p in PROTOS] + [prog.fn1(NS + 'Proto::onRecvJson')] +
